@@ -888,6 +888,30 @@ class Engine:
                 q.store[("handlers",)] = outer
             out = []
             for q in body:
+                # an explicit raise inside the body (also inside an inlined callee) whose class a handler covers continues in that handler,
+                # from the state at the raise
+                if q.status == "raise":
+                    last = next((e_ for e_ in reversed(q.effects) if e_[0] == "raise"), None)
+                    cls_ = str(last[1]).split("(")[0].split(".")[-1] if last is not None else None
+                    hit = None
+                    if cls_ and cls_ != "reraise":
+                        for h in s.handlers:
+                            hn = ["BaseException"] if h.type is None else [ast.unparse(x) for x in (h.type.elts if isinstance(h.type, ast.Tuple) else [h.type])]
+                            if exc_covered(cls_, (tuple(hn),)):
+                                hit = (h, hn)
+                                break
+                    if hit is not None:
+                        h, hn = hit
+                        q.status = "run"
+                        q.guards.append((("exc", ast.unparse(h.type) if h.type else "BaseException", s.lineno), True, h.lineno))
+                        q.effects.append(("caught", cls_, h.lineno))
+                        if h.name:
+                            q.store[("l", fr["id"], h.name)] = ("excval", cls_, s.lineno)
+                        out.extend(self.block(h.body, [q], fr))
+                        continue
+                if q.status == "run" and s.orelse:
+                    out.extend(self.block(s.orelse, [q], fr))
+                    continue
                 out.append(q)
             # handlers analysed as alternative continuations from the try entry (coarse)
             for h in s.handlers:
